@@ -2,7 +2,7 @@
 # tools/try_seed.sh <seed-id> <check-id> [runner args]: run a check against a seeded change applied in a scratch worktree
 # (development aid; the recorded detection runs apply the patch to /repo itself, see tools/run_seeds.sh)
 SID=$1; CHK=$2; shift 2
-P=${SID%-*}; WT=/tmp/wt/$P
+P=${SID%-*}; WT=/tmp/wtv/$P
 [ -d $WT ] || git -C /repo worktree add -q --detach $WT HEAD
 git -C $WT checkout -q -- . && git -C $WT apply /verif/seeded/$SID/patch.diff || exit 9
 cd /verif && VERIF_REPO=$WT ./vcheck $CHK --no-evidence "$@"; rc=$?
